@@ -195,6 +195,63 @@ func jsonCmd(args []string) error {
 			tr.emit(e)
 		}
 	}
+	// ---- UTXOs and UTXO lists (distinct elements: ids, indexes, amounts, scripts) ------------------
+	for i := 0; i < 40; i++ {
+		k := 1 + rng.Intn(4)
+		us := bt.UTXOs{}
+		orig := []Ev{}
+		for j := 0; j < k; j++ {
+			u := &bt.UTXO{TxID: randBytes(rng, 32), Vout: uint32(rng.Intn(5)), Satoshis: uint64(rng.Intn(1000000)), LockingScript: p2pkhScript(byte(10*i + j))}
+			us = append(us, u)
+			orig = append(orig, projUTXO(u))
+		}
+		for _, dialect := range []string{"lib", "node"} {
+			e := Ev{"ev": "json", "src": "utxos", "dialect": dialect, "obj": "utxos", "nin": 0, "nout": k, "expectok": true, "orig": orig}
+			jsonRound(e, func() ([]byte, error) {
+				if dialect == "node" {
+					return json.Marshal(us.NodeJSON())
+				}
+				return json.Marshal(us)
+			}, func(b []byte) (interface{}, error) {
+				var back bt.UTXOs
+				var err error
+				if dialect == "node" {
+					err = json.Unmarshal(b, back.NodeJSON())
+				} else {
+					err = json.Unmarshal(b, &back)
+				}
+				if err != nil {
+					return nil, err
+				}
+				out := []Ev{}
+				for _, u := range back {
+					out = append(out, projUTXO(u))
+				}
+				return out, nil
+			})
+			tr.emit(e)
+			e1 := Ev{"ev": "json", "src": "utxo", "dialect": dialect, "obj": "utxo", "nin": 0, "nout": 1, "expectok": true, "orig": orig[0]}
+			jsonRound(e1, func() ([]byte, error) {
+				if dialect == "node" {
+					return json.Marshal(us[0].NodeJSON())
+				}
+				return json.Marshal(us[0])
+			}, func(b []byte) (interface{}, error) {
+				back := &bt.UTXO{}
+				var err error
+				if dialect == "node" {
+					err = json.Unmarshal(b, back.NodeJSON())
+				} else {
+					err = json.Unmarshal(b, back)
+				}
+				if err != nil {
+					return nil, err
+				}
+				return projUTXO(back), nil
+			})
+			tr.emit(e1)
+		}
+	}
 	// ---- amounts -------------------------------------------------------------------------
 	roundOut := func(s uint64, node bool) (uint64, error) {
 		o := &bt.Output{Satoshis: s, LockingScript: p2pkhScript(1)}
